@@ -397,6 +397,7 @@ def c11(tier):
     C.extra["units"] = sorted(P.units.keys())
     C.extra["not_decided"] = ["KKT conditions", "termination", "nnls_lawson_hanson", "nnls_normal_block", "nnls_normal_block_updown"]
     sp.sp3(P, C)
+    sp.sp4(P, C)
     return C.finish()
 
 
@@ -439,6 +440,7 @@ def c19(tier):
     sm.sm2(P, C)
     sm.sm3(P, C)
     sm.sm4(P, C)
+    sm.sm8(P, C)
     sm.sm6(P, C)
     sm.sm7(P, C)
     # 'for any table file': a file that is no table, or a declaration that does not fit it, is refused, not indexed with
